@@ -561,6 +561,160 @@ def replay_load(cls, text):
     return False
 
 
+
+# ------------------------------------------------------------------ save / load_if_changed with a symbolic file clock
+def ob_reload(cls, scenario):
+    """file-system stub: contents are concrete, modification times are symbolic integers chosen by the environment"""
+    import passlib.apache as A
+    from vlib.sym import ZInt
+    F, G = "/virtual/F", "/virtual/G"
+    FS = {}
+    MT = {}
+    clock = [0]
+
+    def newtime(tag):
+        clock[0] += 1
+        t = ZInt.var("%s_%d" % (tag, clock[0]))
+        sym.assume(z3.And(t.e >= 1, t.e <= 10 ** 10))
+        return t
+
+    class FH:
+        def __init__(self, path, mode):
+            self.path, self.mode = path, mode
+            self.buf = []
+
+        def __enter__(self):
+            if "r" in self.mode and self.path not in FS:
+                raise FileNotFoundError(self.path)
+            return self
+
+        def __exit__(self, *a):
+            if "w" in self.mode:
+                FS[self.path] = b"".join(self.buf)
+                MT[self.path] = newtime("mt")          # the write stamps the file with whatever time the OS says
+            return False
+
+        def __iter__(self):
+            return iter(FS[self.path].splitlines(True))
+
+        def writelines(self, lines):
+            self.buf += [bytes(x) for x in lines]
+
+        def write(self, data):
+            self.buf.append(bytes(data))
+
+    class FakePath:
+        @staticmethod
+        def getmtime(p):
+            if p not in MT:
+                raise FileNotFoundError(p)
+            return MT[p]
+
+        @staticmethod
+        def exists(p):
+            return p in FS
+
+    class FakeOS:
+        path = FakePath
+    two = cls == "htdigest"
+    rec = (lambda u, h: b"%s:realm:%s\n" % (u, h)) if two else (lambda u, h: b"%s:%s\n" % (u, h))
+
+    def run():
+        FS.clear()
+        MT.clear()
+        clock[0] = 0
+        FS[F] = b"# comment\n" + rec(b"alice", b"h1") + b"\n" + rec(b"bob", b"h2")
+        MT[F] = newtime("mt")
+        Fcls = A.HtdigestFile if two else A.HtpasswdFile
+        ht = Fcls(F)
+        args = (lambda u: (u, "realm")) if two else (lambda u: (u,))
+        ht.set_hash(*args("carol"), b"h3") if not two else ht.set_hash("carol", "realm", b"h3")
+        ht.delete(*args("bob"))
+        want = {b"alice": b"h1", b"carol": b"h3"}
+        reloaded = None
+        if scenario == "save-elsewhere":
+            ht.save(G)
+            reloaded = ht.load_if_changed()
+            expect_reload = False
+        elif scenario == "save-bound":
+            ht.save()
+            reloaded = ht.load_if_changed()
+            expect_reload = False
+        elif scenario == "external-change":
+            ht.save()
+            FS[F] = rec(b"dave", b"h9")
+            old = MT[F]
+            MT[F] = newtime("mt")
+            sym.assume(MT[F].e != old.e)
+            reloaded = ht.load_if_changed()
+            expect_reload = True
+            want = {b"dave": b"h9"}
+        else:   # untouched file, no save at all
+            reloaded = ht.load_if_changed()
+            expect_reload = False
+        users = sorted(u if isinstance(u, bytes) else u.encode() for u in (ht.users("realm") if two else ht.users()))
+        got = dict((u, (ht.get_hash(u.decode(), "realm") if two else ht.get_hash(u.decode()))) for u in users)
+        got = dict((k, v.encode() if isinstance(v, str) else v) for k, v in got.items())
+        return reloaded, expect_reload, got == want, FS.get(G), got
+    with patched((A, "os", FakeOS), (A, "open", lambda p, mode="r": FH(p, mode))):
+        paths = explore(run, max_paths=200)
+    for p in paths:
+        if p.exc is not None:
+            return inconclusive("raised %r" % (p.exc,))
+        reloaded, expect, same, g, got = p.result
+        if reloaded != expect or not same:
+            return violation("%s %s: load_if_changed() returned %r (expected %r) and the database is %r" % (cls, scenario, reloaded, expect, got),
+                             "%s:reload:%s" % (cls, scenario),
+                             {"module": "harness.c16", "func": "replay_reload", "args": {"cls": cls, "scenario": scenario}})
+    return ok("%s %s: reload decision and database correct for every file-clock behaviour (%d paths)" % (cls, scenario, len(paths)),
+              paths=len(paths))
+
+
+def replay_reload(cls, scenario):
+    """real files in a scratch directory; the bound file is back-dated so that the two files have different mtimes"""
+    import os
+    import tempfile
+    import passlib.apache as A
+    two = cls == "htdigest"
+    d = tempfile.mkdtemp(prefix="verif_c16_")
+    try:
+        F, G = os.path.join(d, "F"), os.path.join(d, "G")
+        rec = (lambda u, h: b"%s:realm:%s\n" % (u, h)) if two else (lambda u, h: b"%s:%s\n" % (u, h))
+        with open(F, "wb") as fh:
+            fh.write(b"# comment\n" + rec(b"alice", b"h1") + b"\n" + rec(b"bob", b"h2"))
+        os.utime(F, (1000000000, 1000000000))
+        ht = (A.HtdigestFile if two else A.HtpasswdFile)(F)
+        if two:
+            ht.set_hash("carol", "realm", "h3")
+            ht.delete("bob", "realm")
+        else:
+            ht.set_hash("carol", "h3")
+            ht.delete("bob")
+        want = ["alice", "carol"]
+        if scenario == "save-elsewhere":
+            ht.save(G)
+            r, exp = ht.load_if_changed(), False
+        elif scenario == "save-bound":
+            ht.save()
+            r, exp = ht.load_if_changed(), False
+        elif scenario == "external-change":
+            ht.save()
+            with open(F, "wb") as fh:
+                fh.write(rec(b"dave", b"h9"))
+            os.utime(F, (1500000000, 1500000000))
+            r, exp = ht.load_if_changed(), True
+            want = ["dave"]
+        else:
+            r, exp = ht.load_if_changed(), False
+        users = sorted(ht.users("realm") if two else ht.users())
+        if r != exp or users != want:
+            return "%s %s: load_if_changed() = %r (expected %r); users now %r, expected %r" % (cls, scenario, r, exp, users, want)
+        return False
+    finally:
+        import shutil
+        shutil.rmtree(d, ignore_errors=True)
+
+
 # ------------------------------------------------------------------ field validation
 def ob_encode_field(n):
     import passlib.apache as A
@@ -626,6 +780,9 @@ def run(tier, seed, t0, only=None):
         obs.append(Ob("load[htdigest,n=%d]" % n, ob_load, {"n": n, "cls": "htdigest"}, timeout=3000))
     for n in (0, 1, 2, 3, 255, 256):
         obs.append(Ob("encode-field[n=%d]" % n, ob_encode_field, {"n": n}, timeout=900))
+    for c_ in ("htpasswd", "htdigest"):
+        for sc in ("save-elsewhere", "save-bound", "external-change", "no-save"):
+            obs.append(Ob("reload[%s,%s]" % (c_, sc), ob_reload, {"cls": c_, "scenario": sc}, timeout=600))
     if only:
         obs = [o for o in obs if only in o.name]
     results = runner.run_obligations(obs)
@@ -640,10 +797,10 @@ def run(tier, seed, t0, only=None):
                (max(s[0] for s in shapes), max(s[1] for s in shapes), 4 if tier == "quick" else 6, ALPHA),
         stubs=["_records -> dict model whose look-ups compare symbolic keys (forks)", "render_bytes / join_bytes / BytesIO line "
                "iteration -> models validated against the real helpers at start", "_INVALID_FIELD_CHARS membership -> solver query",
-               "CryptContext.verify_and_update/hash -> symbolic outcome", "set() of pending keys (debug bookkeeping) -> list model"],
+               "CryptContext.verify_and_update/hash -> symbolic outcome", "set() of pending keys (debug bookkeeping) -> list model", "open()/os.path.getmtime -> in-memory files with *symbolic* modification times (reload obligations)"],
         assumptions=["representation invariant of the state: live keys distinct, deleted slots name no live key, names are field-safe "
                      "bytes; reachable states satisfy it (checked by the one-step obligations themselves)"],
-        outside=["file-system behaviour of save()/load()/mtime", "names longer than one byte in the step obligations", "encodings"],
+        outside=["real file-system behaviour beyond the modelled open()/getmtime() contract", "names longer than one byte in the step obligations", "encodings"],
         explanation="Inductive step: from an arbitrary valid state one real operation is executed with symbolic arguments over a "
                     "dict model; an independent reader of to_string() must return exactly the model's records, each once, in "
                     "order, with comments preserved. All texts up to the bound are loaded and re-exported the same way.",
